@@ -605,3 +605,32 @@ def gen_own(tier, seed):
     for j in range(5 if tier == "quick" else 50):
         cases.append("OWN w%d %d %d" % (j, rng.randrange(1 << 30), rng.choice([3, 40, 600, 3000, 9000])))
     return cases, {"n": [c.split()[3] for c in cases]}
+
+
+# ---------------------------------------------------------------- CompressedPGMIndex
+def cmp_configs():
+    out = []
+    for line in open(os.path.join(ROOT, "harness", "cmp_configs.inc")):
+        m = re.match(r"CP\((\w+),\s*(\w+),\s*(\d+),\s*(\d+),\s*(\d+),\s*(\w+),\s*(\d)\)", line)
+        if m: out.append(dict(name=m.group(1), kbits=int(m.group(3)), signed=0, eps=int(m.group(4)), epsrec=int(m.group(5)), fdouble=int(m.group(7))))
+    return out
+
+def gen_cmp(tier, seed):
+    rng = random.Random(seed * 179424673 + 81)
+    cfgs = cmp_configs()
+    cases, stats = [], {"styles": {}, "n": {}}
+    per_cfg = 8 if tier == "quick" else 100
+    cid = 0
+    for cfg in cfgs:
+        for j in range(per_cfg):
+            style = STYLES[(j + rng.randint(0, 7)) % len(STYLES)]
+            n = rng.choice([1, 2, 3, 5, 9, rng.randint(1, 64), rng.randint(20, 400), rng.randint(100, 1500 if tier == "quick" else 5000)])
+            if cfg["kbits"] == 8: n = min(n, rng.choice([3, 20, 100, 250]))
+            keys = gen_keys(rng, cfg["kbits"], 0, n, cfg["eps"], style)
+            if not keys: continue
+            qs = gen_queries(rng, cfg["kbits"], 0, keys, 40 if tier == "quick" else 120)
+            cid += 1
+            cases.append("CMP z%d %s %d %d %d %d | %s | %s" % (cid, cfg["name"], cfg["kbits"], cfg["eps"], cfg["epsrec"], cfg["fdouble"],
+                                                              " ".join(map(str, keys)), " ".join(map(str, qs))))
+            stats["styles"][style] = stats["styles"].get(style, 0) + 1
+    return cases, stats
